@@ -108,7 +108,7 @@ class WriteOnly:
 # ---- sources ----------------------------------------------------------------------------------
 def src_class(src) -> str:
     if src['via'] == 'mem':
-        return 'in-memory'
+        return 'in-memory' + (',from-a-bitarray' if src.get('made') else '')
     if src['cls'] in util.MUTABLE:
         return 'mutable-file-backed'
     if src.get('length') is not None and not src.get('offset') and src['length'] < 4 * len(src['hex']):
@@ -160,7 +160,15 @@ def build(src, paths):
     """-> (object, value bits).  For file-backed objects the value is what the object reports."""
     cls = CLASSES[src['cls']]
     if src['via'] == 'mem':
-        s = mk(cls, src['bits'])
+        made = src.get('made')
+        if made:
+            # the object got its bits from somebody else's bitarray (whose bit-endianness describes ITS buffer, not the bits it holds)
+            import bitarray as _ba
+            e = 'little' if 'little' in made else 'big'
+            raw = (_ba.frozenbitarray if 'frozen' in made else _ba.bitarray)(('1' if 'offset' in made else '') + src['bits'], endian=e)
+            s = cls(bitarray=raw, offset=1) if 'offset' in made else cls(bitarray=raw) if 'kw' in made else cls(raw)
+        else:
+            s = mk(cls, src['bits'])
         bits = src['bits']
     else:
         path = _newfile(bytes.fromhex(src['hex']))
@@ -591,6 +599,8 @@ def gen_src(rng, L, allow_file=True, p_file=0.15, cls=None):
             src['after'] = gen_after(rng)
         return src
     src = {'via': 'mem', 'cls': cls, 'bits': util.content(rng, L), 'pos': pos, 'poskind': poskind}
+    if rng.random() < 0.15:
+        src['made'] = rng.choice(['little-kw', 'little-auto', 'frozen-little-kw', 'frozen-little-auto', 'little-kw-offset', 'big-kw-offset', 'frozen-big-kw'])
     if cls in util.MUTABLE and rng.random() < 0.25:
         src['after'] = gen_after(rng)
     return src
